@@ -58,6 +58,13 @@ def main():
     except common.MachineryError as e:
         print(f"MACHINERY-ERROR {a.property}: {e}", file=sys.stderr)
         sys.exit(2)
+    except (SystemExit, KeyboardInterrupt):
+        raise
+    except BaseException as e:       # a crash of the machinery itself is never a verdict on the property: exit 2, not 1
+        import traceback
+        traceback.print_exc()
+        print(f"MACHINERY-ERROR {a.property}: {type(e).__name__}: {e}", file=sys.stderr)
+        sys.exit(2)
     sys.exit(rc)
 
 
